@@ -198,8 +198,8 @@ func classifyClause(msg string) string {
 			}
 			sb.WriteString(w)
 		}
-		if sb.Len() > 60 {
-			break
+		if strings.Count(sb.String(), "-") >= 4 {
+			break // five words identify the message; later words tend to be names
 		}
 	}
 	if sb.Len() == 0 {
